@@ -1,6 +1,7 @@
 package jsonrpc2
 
 import (
+	"time"
 	"context"
 	"errors"
 	"io"
@@ -12,14 +13,18 @@ import (
 // each write is a visible operation for the scheduler and two senders can interleave exactly
 // where the real connection lets them.
 type verifSink struct {
-	ch   chan []byte
-	data []byte
+	ch      chan []byte
+	data    []byte
+	noYield bool
 }
 
 func (s *verifSink) Write(p []byte) (int, error) {
 	cp := make([]byte, len(p))
 	copy(cp, p)
 	s.ch <- cp
+	if s.noYield {
+		return len(p), nil
+	}
 	symYield() // natively: give a concurrent sender time to get in between two writes
 	return len(p), nil
 }
@@ -45,9 +50,14 @@ type verifHybrid struct {
 	out Stream
 	// gate, when non-nil, must be received from before the next message is delivered
 	gate chan struct{}
+	// before, when non-nil, must be received from before the first message is delivered
+	before chan struct{}
 }
 
 func (h *verifHybrid) Read(ctx context.Context) (Message, int64, error) {
+	if h.before != nil && h.pos == 0 {
+		<-h.before
+	}
 	if h.pos >= len(h.in) {
 		if h.gate != nil {
 			<-h.gate // the peer goes quiet until the harness closes the connection
@@ -165,4 +175,89 @@ func VerifC18CallCancel() {
 	symAssert(intact && string(last) == string(wantAfter), "after a cancelled call the wire holds whole frames only and the next message arrives intact")
 	close(hy.gate)
 	symAssert(symQuiesce() == 0, "no goroutine is left blocked forever")
+}
+
+
+// verifAwait receives up to n values from ch: under the engine until nothing can move any more,
+// natively until 300 ms pass without one.
+func verifAwait(n int, ch chan struct{}) int {
+	got := 0
+	for got < n {
+		if symNative() {
+			select {
+			case <-ch:
+				got++
+				continue
+			case <-time.After(300 * time.Millisecond):
+				return got
+			}
+		}
+		select {
+		case <-ch:
+			got++
+			continue
+		default:
+		}
+		symQuiesce()
+		select {
+		case <-ch:
+			got++
+		default:
+			return got
+		}
+	}
+	return got
+}
+
+// VerifC18Callers: two goroutines call on the same connection at the same time; the peer answers
+// both (in either order) once both calls are on the wire: the calls carry different ids and each
+// returns the response with its own id. (Natively the scenario is attempted many times: the
+// window between two atomic operations cannot be forced.)
+func VerifC18Callers() {
+	answerSecondFirst := symBool("answerSecondFirst")
+	for rep := 0; rep < symNativeRepeat(3000); rep++ {
+		verifCallersOnce(answerSecondFirst)
+	}
+	symCover("callers-returned")
+}
+
+func verifCallersOnce(answerSecondFirst bool) {
+	sink := &verifSink{ch: make(chan []byte, 16), noYield: true}
+	first, second := NewNumberID(1), NewNumberID(2)
+	if answerSecondFirst {
+		first, second = second, first
+	}
+	hy := &verifHybrid{
+		in:  []Message{&Response{id: first, result: []byte(`"r"`)}, &Response{id: second, result: []byte(`"r"`)}},
+		out: NewStream(sink), gate: make(chan struct{}), before: make(chan struct{}),
+	}
+	c := NewConn(hy).(*conn)
+	c.Go(context.Background(), func(ctx context.Context, reply Replier, req Request) error { return nil })
+	var ids [2]ID
+	var errs [2]error
+	finished := make(chan struct{}, 2)
+	ctxs := [2]verifDoneCtx{{context.Background(), make(chan struct{})}, {context.Background(), make(chan struct{})}}
+	for i := 0; i < 2; i++ {
+		i := i
+		go func() {
+			ids[i], errs[i] = c.Call(ctxs[i], "m", nil, nil)
+			finished <- struct{}{}
+		}()
+	}
+	for k := 0; k < 4; k++ { // header and body of both calls are on the wire
+		<-sink.ch
+	}
+	close(hy.before)
+	n := verifAwait(2, finished)
+	symAssert(n == 2, "both concurrent calls return once the peer has answered both")
+	if n == 2 {
+		symAssert(errs[0] == nil && errs[1] == nil, "both calls return their response")
+		symAssert(ids[0] != ids[1], "concurrent calls carry different ids")
+	}
+	close(ctxs[0].done) // release whatever is still waiting
+	close(ctxs[1].done)
+	close(hy.gate)
+	if n != 2 {
+		verifAwait(2-n, finished)
+	}
 }
